@@ -108,16 +108,31 @@ impl ConfirmationActor {
 
     /// Broadcasts the confirmed events of a partition that have not been broadcast yet
     /// (from `next_broadcast_seq` up to the watermark), reading them from the database.
-    async fn broadcast_up_to_watermark(&mut self, partition_id: PartitionId) {
+    ///
+    /// `confirmed_before` is the watermark before the update that triggers the broadcast:
+    /// events below it were confirmed before this actor ever broadcast for the partition
+    /// (they were recovered from disk), subscriptions read those from the database.
+    async fn broadcast_up_to_watermark(&mut self, partition_id: PartitionId, confirmed_before: u64) {
         let watermark = self
             .manager
             .get_watermark(partition_id)
             .map(|w| w.get())
             .unwrap_or(0);
 
-        let next_to_broadcast = self.next_broadcast_seq.entry(partition_id).or_insert(0);
+        let next_to_broadcast = self
+            .next_broadcast_seq
+            .entry(partition_id)
+            .or_insert(confirmed_before);
 
         if watermark == 0 {
+            return;
+        }
+
+        // Nobody to deliver to. A subscription that starts later reads these events from
+        // the database itself; sending them to it afterwards would deliver events from
+        // before its start position.
+        if self.broadcast_tx.receiver_count() == 0 {
+            *next_to_broadcast = (*next_to_broadcast).max(watermark);
             return;
         }
 
@@ -238,6 +253,12 @@ impl Message<UpdateConfirmationWithBroadcast> for ConfirmationActor {
         msg: UpdateConfirmationWithBroadcast,
         _ctx: &mut Context<Self, Self::Reply>,
     ) -> Self::Reply {
+        let old_watermark = self
+            .manager
+            .get_watermark(msg.partition_id)
+            .map(|w| w.get())
+            .unwrap_or(0);
+
         // Update confirmations
         let mut results = SmallVec::new();
         for version in &msg.versions {
@@ -248,7 +269,8 @@ impl Message<UpdateConfirmationWithBroadcast> for ConfirmationActor {
             results.push(advanced);
         }
 
-        self.broadcast_up_to_watermark(msg.partition_id).await;
+        self.broadcast_up_to_watermark(msg.partition_id, old_watermark)
+            .await;
 
         Ok(results)
     }
@@ -378,7 +400,8 @@ impl Message<UpdateConfirmation> for ConfirmationActor {
             // buffered in `pending_events`: broadcast them from the database like the
             // coordinator path does, otherwise live subscribers never receive them
             self.broadcast_confirmed_events(msg.partition_id, old_watermark, new_watermark);
-            self.broadcast_up_to_watermark(msg.partition_id).await;
+            self.broadcast_up_to_watermark(msg.partition_id, old_watermark)
+                .await;
         }
 
         Ok(results)
